@@ -7,7 +7,7 @@ output:  {"cases": [...], "fails": [...], "strata": {...}}
 import math
 
 import numpy as np
-from common import emit, payload, rng
+from common import emit, payload, rand_vec, rng
 
 from orix.measure.pole_density_function import pole_density_function
 from orix.projections import InverseStereographicProjection, StereographicProjection
@@ -479,5 +479,38 @@ groups = list(osym._groups)
 for pg in groups:
     for _ in range(1 if TIER == "quick" else 4):
         do_pdf_sym(pg)
+
+# ---- secondary entry points: the density drawn by Vector3d.pole_density_function / StereographicPlot.pole_density_function
+# must be the histogram orix.measure.pole_density_function computes for the same vectors, weights, resolution and
+# smoothing (read back from the QuadMesh of the axes)
+try:
+    import matplotlib
+    matplotlib.use("Agg")
+    import matplotlib.pyplot as plt
+    from orix import plot as _orix_plot  # noqa: F401  (registers the projections)
+    for trial in range(3):
+        n = 40
+        vs = np.array([rand_vec(R) for _ in range(n)])
+        ws = np.array([R.choice([0.0, 0.5, 1.0, 3.0, 7.5]) for _ in range(n)])
+        ws[0] = 11.0
+        res, sigma = R.choice([(6, 0), (8, 7), (10, 12)])
+        for hemi in ("upper", "lower"):
+            st("pdf/plot-entry")
+            ref, _ = pole_density_function(Vector3d(vs.copy()), resolution=res, sigma=sigma, weights=ws, hemisphere=hemi)
+            fig = Vector3d(vs.copy()).pole_density_function(resolution=res, sigma=sigma, weights=ws, hemisphere=hemi,
+                                                            return_figure=True)
+            qm = [c for ax in fig.axes for c in ax.collections if type(c).__name__ == "QuadMesh"]
+            plt.close(fig)
+            rep = {"n": n, "resolution": res, "sigma": sigma, "hemisphere": hemi, "weights": ws.tolist(), "v": vs.tolist()}
+            if not qm:
+                fail("pdf:plot-entry:no-mesh", "Vector3d.pole_density_function drew no density mesh", rep)
+                continue
+            got = np.ma.filled(np.ma.masked_invalid(qm[0].get_array()), np.nan).reshape(-1)
+            want_ = np.ma.filled(np.ma.masked_invalid(ref), np.nan).reshape(-1)
+            if got.shape != want_.shape or not np.allclose(np.nan_to_num(got), np.nan_to_num(want_), atol=1e-9):
+                fail("pdf:plot-entry:differs-from-measure", "the density drawn by Vector3d.pole_density_function(weights=...) is not the "
+                     "histogram of orix.measure.pole_density_function for the same arguments", rep)
+except ImportError:
+    st("pdf/plot-entry:matplotlib-missing")
 
 emit({"cases": cases, "fails": fails, "strata": strata})
